@@ -239,6 +239,20 @@ func intLit(e ast.Expr) (uint64, bool) {
 	if p, ok := e.(*ast.ParenExpr); ok {
 		return intLit(p.X)
 	}
+	// T(literal) for an integer type T that holds the literal: the conversion is the identity (a typed constant
+	// `const c uint32 = 100101` reaches here as uint32(100101))
+	if c, ok := e.(*ast.CallExpr); ok && len(c.Args) == 1 {
+		if id, ok := c.Fun.(*ast.Ident); ok {
+			bits := map[string]uint{"uint8": 8, "byte": 8, "uint16": 16, "uint32": 32, "uint64": 64, "uint": 64,
+				"int8": 7, "int16": 15, "int32": 31, "rune": 31, "int64": 63, "int": 63}[id.Name]
+			if bits != 0 {
+				if v, ok := intLit(c.Args[0]); ok && (bits == 64 || v < uint64(1)<<bits) {
+					return v, true
+				}
+			}
+		}
+		return 0, false
+	}
 	l, ok := e.(*ast.BasicLit)
 	if !ok {
 		return 0, false
